@@ -217,7 +217,7 @@ def _subnodes(t, under=False):
         yield from _subnodes(a, under or t["op"] == "simplify")
 
 
-def _model_fracpow_branch(opzoo, tree, W, M, tol, max_combos=4000):
+def _model_fracpow_branch(opzoo, tree, W, M, tol, max_combos=20000):
     """True when M equals the reference in which every fractional power below a simplify node is replaced by ANOTHER branch
     of the same power: eigenvalue e^{i phi} of the base -> e^{i z (phi + 2 pi k)} with one integer k per distinct eigenvalue
     (the principal power is k = 0 everywhere).  Only for bases on <= 3 wires; at most ``max_combos`` candidates."""
